@@ -175,6 +175,41 @@ class RefSolver:
     def sat(self, assumptions=()):
         return self.check(assumptions) is not None
 
+    def check_fixed(self, ids, values, extra=()):
+        """model or None under the assumptions var[id] = value (bools as literals, ints as
+        equalities); `extra` are additional z3 terms."""
+        ass = []
+        for vid, val in zip(ids, values):
+            term = self.vars[vid]
+            if z3.is_bool(term):
+                ass.append(term if val else z3.Not(term))
+            else:
+                ass.append(term == val)
+        ass += list(extra)
+        while True:
+            r = self.s.check(*ass)
+            if r == z3.unsat:
+                return None
+            if r != z3.sat:
+                raise RuntimeError("z3 returned %s" % r)
+            m = self.s.model()
+            self.cegar_iterations += 1
+            if not self.atoms or not self._refine(m):
+                return m
+
+    def sat_fixed(self, ids, values):
+        return self.check_fixed(ids, values) is not None
+
+    def forced(self, ids, values, out_ids, out_values):
+        """under var[ids]=values, are var[out_ids] forced to out_values in every model?"""
+        diffs = []
+        for vid, val in zip(out_ids, out_values):
+            term = self.vars[vid]
+            diffs.append((z3.Not(term) if val else term) if z3.is_bool(term) else term != val)
+        if not diffs:
+            return True
+        return self.check_fixed(ids, values, extra=[z3.Or(diffs)]) is None
+
     def value(self, model, vid):
         term = self.vars[vid]
         v = model.eval(term, model_completion=True)
